@@ -2,6 +2,7 @@ package props
 
 import (
 	"fmt"
+	"strconv"
 	"strings"
 
 	"golang.org/x/tools/go/ssa"
@@ -427,10 +428,51 @@ func C13(p *ir.Program, r *report.R) {
 
 	// pruning and saving address blocks only through the injective key builders (shared with C12)
 	storeKeyRules(c, "blockchain", 7)
+	// the flat-state undo log is truncated to 0 before every block but keeps its file offset: it must be
+	// opened in append mode, or from the second block of a run the records sit behind a hole of zero bytes
+	// and the rollback after a crash reads garbage
+	{
+		nk := p.Func("state", "NewKeyValueDBWithCache")
+		n := 0
+		for _, call := range ir.Calls(nk, "os.OpenFile") {
+			if !strings.Contains(Arg(call, 0), "walFile") {
+				continue
+			}
+			n++
+			flags, _ := strconv.Atoi(Arg(call, 1))
+			r.Check("K2", "state.NewKeyValueDBWithCache/undo-log-append-mode", p.InstrPos(call.(ssa.Instruction)), flags&1024 != 0 && flags&64 != 0, fmt.Sprintf("the undo log is opened with O_APPEND|O_CREATE (flags %d)", flags))
+		}
+		c.MustFind("K2", "state.NewKeyValueDBWithCache/undo-log-open", nk, n, "os.OpenFile of the undo log")
+	}
+
+	// what is reloaded after a restart is keyed the way it was written: the per-token maximum output
+	// sequence is stored under prefix+tokenId and read back under the SAME text (no re-encoding of the key
+	// suffix): a restarted node that finds no maximum numbers the next outputs from 0 and overwrites
+	// committed ones
+	{
+		ld := p.Func("utxo", "loadTokenUtxoStoreMaxUtxoOutputSeqMap")
+		n := 0
+		ir.Instrs(ld, func(in ssa.Instruction) {
+			mu, ok := in.(*ssa.MapUpdate)
+			if !ok {
+				return
+			}
+			n++
+			k := ir.Render(mu.Key)
+			r.Check("K5", "utxo.loadTokenUtxoStoreMaxUtxoOutputSeqMap/key-as-written", p.InstrPos(in), ir.Match("db.Iterator.Key(*)[11:]", k) || ir.Match("db.Iterator.Key(*)[len(*):]", k), "the map key is the database key without its prefix, verbatim: "+short(k, 120))
+		})
+		c.MustFind("K5", "utxo.loadTokenUtxoStoreMaxUtxoOutputSeqMap/map", ld, n, "map update")
+		// the writer builds prefix + tokenId
+		if gk := p.TryFunc("utxo", "genTokenMaxSeqKey"); gk != nil {
+			for _, rt := range ir.Returns(gk) {
+				ps := keyPieces(p, rt.Results[0], 0)
+				r.Check("K5", "utxo.genTokenMaxSeqKey/prefix-plus-id", p.InstrPos(rt.Instr), len(ps) == 2 && ps[0].Kind == kpLit && len(ps[0].Lit) == 11, "written key = 11-byte prefix + token id text: "+keyString(ps))
+			}
+		}
+	}
 }
 
 var _ = report.Discharged
-
 
 // rebuildStatusRules: after a crash between CommitBlock and SaveStatus the node re-applies the block
 // stored at the application height — that block, its meta, and the validators the application computed
